@@ -83,7 +83,7 @@ def window(ctx, rule, fi, counter, handler_pred, cached_attr=None):
             f = delta_eval(n.ast, 'message_id', counter)
             if f is not None:
                 conds[n.id] = f
-    ctx.floor('%s window tests in %s' % (rule, fi.name), len(conds), 1)
+    ctx.floor('a Message-ID window test against %s in %s' % (counter, fi.name), len(conds), 1, rule=rule)
     hnodes = [n for n, x in common.nodes_calling(ctx, fi, g, handler_pred)]
     ctx.floor('%s handler dispatch in %s' % (rule, fi.name), len(hnodes), 1)
     for d in (-3, -2, -1, 0, 1, 2, 3, 100):
@@ -153,7 +153,7 @@ def run(ctx):
                   key=('M1', 'increment-in-loop'), site=ctx.site(preq, inc.ast))
     # stored == returned
     stores = [n for n in g.nodes if self_store(n, preq) == 'last_sent_response_data']
-    ctx.floor('M1 stores to last_sent_response_data', len(stores), 1)
+    ctx.floor('a store of the reply into last_sent_response_data', len(stores), 1, rule='M1')
     after = g.reach(hnodes)
     rets = [n for n in g.nodes if n.id in after and n.kind == 'stmt' and isinstance(n.ast, ast.Return)]
     ser = common.nodes_calling(ctx, preq, g, common.calls_named('to_bytes'))
@@ -196,7 +196,7 @@ def run(ctx):
     init = ctx.func('ikesa.IkeSa.process_ike_sa_init_response')
     g3 = esc.add_exception_edges(init)
     resets = [n for n in g3.nodes if self_store(n, init) == 'my_msg_id']
-    ctx.floor('M2 my_msg_id resets on the IKE_SA_INIT retry paths', len(resets), 1)
+    ctx.floor('a reset of my_msg_id on the IKE_SA_INIT retry paths', len(resets), 1, rule='M2')
     for n in resets:
         ctx.check(isinstance(n.ast, ast.Assign) and isinstance(n.ast.value, ast.Constant) and n.ast.value.value == 0,
                   'M2', 'IKE_SA_INIT retries reuse Message ID 0 (`%s`)' % src(n.ast), key=('M2', 'reset-value'),
@@ -207,7 +207,7 @@ def run(ctx):
                   key=('M2', 'reset-after-generate'), site=ctx.site(init, x))
     retry_returns = [n for n in g3.nodes if n.kind == 'stmt' and isinstance(n.ast, ast.Return)
                      and n.ast.value is not None and src(n.ast.value) == 'self.request']
-    ctx.floor('M2 retry returns in process_ike_sa_init_response', len(retry_returns), 2)
+    ctx.floor('the two retry returns (`return self.request`) of process_ike_sa_init_response', len(retry_returns), 2, rule='M2')
     for r in retry_returns:
         ctx.check(r.id not in g3.reach([g3.entry], blocked_nodes=resets), 'M2',
                   'every IKE_SA_INIT retry path resets my_msg_id to 0 before returning the request',
@@ -297,7 +297,7 @@ def run(ctx):
         gg = esc.add_exception_edges(fi)
         q = [n for n, x in common.nodes_calling(ctx, fi, gg, common.calls_named('append'))
              if 'pending_events' in src(x.func.value)]
-        ctx.floor('M4 pending_events.append in %s' % name, len(q), 1)
+        ctx.floor('queuing of the trigger (pending_events.append) in %s' % name, len(q), 1, rule='M4')
         arr = set()
         for n in q:
             arr |= ts.states_at(fi, n, None)
@@ -305,7 +305,7 @@ def run(ctx):
                   key=('M4', name, 'not-queued', ','.join(sorted(set(RS) - arr))), site=ctx.site(fi, fi.node))
     # replay of queued triggers only when idle
     pe = [n for n in g2.nodes if n.kind == 'iter' and 'pending_events' in src(n.ast.iter)]
-    ctx.floor('M4 pending-event replay loop', len(pe), 1)
+    ctx.floor('the replay loop over pending_events', len(pe), 1, rule='M4')
     conds = [c for c in g2.nodes if c.kind == 'cond' and S.eval_cond(c.ast) is not None
              and S.eval_cond(c.ast)[1] == frozenset(['ESTABLISHED'])]
     ctx.check(any(common.dominated_by_edge(g2, n, c, 'T') for n in pe for c in conds), 'M4',
@@ -320,7 +320,7 @@ def run(ctx):
     ctx.floor('M5 dispatch calls in process_message', len(disp), 2)
     role = [c for c in g5.nodes if c.kind == 'cond' and isinstance(c.ast, ast.Compare)
             and {src(c.ast.left), src(c.ast.comparators[0])} == {'message.is_initiator', 'self.is_initiator'}]
-    ctx.floor('M5 role-flag test', len(role), 1)
+    ctx.floor('the INITIATOR-flag test in process_message', len(role), 1, rule='M5')
     for c in role:
         passing = 'F' if isinstance(c.ast.ops[0], ast.Eq) else 'T'
         for d in disp:
@@ -330,7 +330,7 @@ def run(ctx):
     spi = [c for c in g5.nodes if c.kind == 'cond' and isinstance(c.ast, ast.Compare)
            and 'message.spi_i' in src(c.ast) and 'self.spi_i' in src(c.ast) and 'spi_r' in src(c.ast)]
     exch = [c for c in g5.nodes if c.kind == 'cond' and 'exchange_type' in src(c.ast) and 'IKE_SA_INIT' in src(c.ast)]
-    ctx.floor('M5 SPI test', len(spi), 1)
+    ctx.floor('the SPI test in process_message', len(spi), 1, rule='M5')
     for d in disp:
         blocked = []
         for c in spi:
@@ -343,7 +343,7 @@ def run(ctx):
                   'dispatch requires matching SPIs unless the exchange is IKE_SA_INIT', key=('M5', 'spi-test'),
                   site=ctx.site(pm, d.ast))
     kind = [c for c in g5.nodes if c.kind == 'cond' and src(c.ast) in ('message.is_request', 'message.is_response')]
-    ctx.floor('M5 request/response split', len(kind), 1)
+    ctx.floor('the request/response split in process_message', len(kind), 1, rule='M5')
     for n, x in common.nodes_calling(ctx, pm, g5, lambda c, r: any(t.name == '_process_request' for t in r.targets)):
         ctx.check(any(common.dominated_by_edge(g5, n, c, 'T' if src(c.ast).endswith('is_request') else 'F')
                       for c in kind), 'M5', 'requests go to _process_request', key=('M5', 'split-request'),
